@@ -99,6 +99,15 @@ INDUCED_READ = {
     "lidar.las": (b"LASF" + b"\0" * 200, {"encoding": "latin-1"}),
     "empty.las": (b"", {}),
     "badversion.las": (V2.replace("2.0 : CWLS", "two : CWLS").replace("1670.000   123.450 2550.000", "1670.000   abc 2550.000").encode(), {}),
+    # argument values that are only looked at after the file has been opened (a misspelt error handler, an unknown codec, wrong types)
+    "badhandler.las": (NONASCII.encode("latin-1"), {"encoding": "utf-8", "encoding_errors": "stict"}),
+    "badhandler_clean.las": (V2.encode(), {"encoding_errors": "stict"}),
+    "nonehandler.las": (V2.encode(), {"encoding": "utf-8", "encoding_errors": None}),
+    "badcodec.las": (V2.encode(), {"encoding": "no-such-codec"}),
+    "badpolicy.las": (V2.encode(), {"null_policy": "no-such-policy"}),
+    "badreadpolicy.las": (V2.encode(), {"read_policy": "no-such-policy"}),
+    "badengine.las": (V2.encode(), {"engine": "no-such-engine"}),
+    "baddtypes.las": (V2.encode(), {"dtypes": 5}),
     "textdata_strictfloat.las": (V2.replace("1669.875   123.450 2550.000", "1669.875   12-3.4x50 2550.000").encode(), {"dtypes": [float, float, float]}),
 }
 READ_OPTS = [{}, {"autodetect_encoding": False}, {"encoding": "utf-8"}, {"engine": "normal"}, {"encoding": "latin-1", "ignore_header_errors": True}]
@@ -361,7 +370,7 @@ def one_run(ctx, case, fail_at=None, line_at=None, sticky=False):
               "descriptors %r still point into the scratch directory after the call %s" % (
                   extra, "raised %r" % (exc,) if exc is not None else "returned"), desc)
     if line_at is None and not case.get("count_lines"):
-        if ledger.audit_opens == len(ledger.opened):
+        if ledger.audit_opens == len(ledger.opened) + ledger.failed_opens:
             ctx.count("audit_matches")
         else:
             ctx.count("audit_mismatch")
